@@ -1,11 +1,28 @@
 package sd
 
-// HistOpts selects what a history does besides random batches.
+import "github.com/semafind/semadb/models"
+
+// HistOpts selects what a history observes besides the API results of its
+// random batches.
 type HistOpts struct {
-	Mode       string // crud | filter | ...
-	Batches    int
-	PanelEvery int
-	Sample     int
+	Batches     int
+	FilterEvery int  // run the filter panel after every k-th batch (0 = never)
+	Sample      int  // sample size of the leaf panel (0 = all)
+	Rank        int  // ranking queries per ranking property after every batch
+	Cold        bool // repeat the observations after eviction and on a cold copy
+	Graph       bool // log the graph projection after every batch
+	InsertOnly  bool // only insert batches (exact regime of the graph index)
+	GetAll      bool // select-* read of every id after every batch
+	MaxBatch    int  // largest random batch (0 = 5)
+}
+
+func (r *Runner) hasRanking() bool {
+	for _, p := range r.Cfg.Props {
+		if p.IsVector() || p.Type == models.IndexTypeText {
+			return true
+		}
+	}
+	return false
 }
 
 // RunHistory runs one random history on a fresh shard.
@@ -14,16 +31,56 @@ func (r *Runner) RunHistory(histNo int, o HistOpts) error {
 		return err
 	}
 	defer r.Close()
-	var leaves []Q
-	if o.Mode == "filter" {
-		leaves = r.Cfg.LeafQueries()
+	r.MaxBatch = o.MaxBatch
+	leaves := r.Cfg.LeafQueries()
+	insertOnly := true
+	observe := func(b int) {
+		r.Count()
+		if o.GetAll {
+			r.Get(r.allIDs())
+		}
+		if o.FilterEvery > 0 && (b+1)%o.FilterEvery == 0 {
+			r.FilterPanel(leaves, o.Sample, 20)
+		}
+		if o.Rank > 0 {
+			r.RankPanel(r.Shard, leaves, o.Rank, insertOnly)
+		}
 	}
 	for b := 0; b < o.Batches; b++ {
-		r.RandomBatch()
-		r.Count()
-		r.Get(allIDs())
-		if o.Mode == "filter" && o.PanelEvery > 0 && (b+1)%o.PanelEvery == 0 {
-			r.FilterPanel(leaves, o.Sample, 20)
+		if o.InsertOnly {
+			r.InsertBatch()
+		} else {
+			if r.RandomBatch() != "insert" {
+				insertOnly = false
+			}
+		}
+		if o.Graph {
+			r.GraphProj()
+		}
+		observe(b)
+		if o.Cold && !r.Cfg.Mem {
+			// the same observations after eviction ...
+			r.Evict()
+			observe(b)
+			// ... and on a cold copy of the file
+			cold, done, err := r.ColdCopy()
+			if err != nil {
+				return err
+			}
+			warm := r.Shard
+			r.Shard = cold
+			observe(b)
+			r.Shard = warm
+			// graph search: warm and cold instance must agree (the graph is
+			// schedule dependent, the search is a function of the persisted graph)
+			for _, p := range r.Cfg.Props {
+				if p.Type == models.IndexTypeVectorVamana {
+					for i := 0; i < o.Rank; i++ {
+						r.VamanaPair(warm, cold, p, "warm/cold")
+					}
+				}
+			}
+			done()
 		}
 		// environment steps that must not change anything
 		switch r.R.Intn(10) {
@@ -31,8 +88,7 @@ func (r *Runner) RunHistory(histNo int, o HistOpts) error {
 			if err := r.Reopen(); err != nil {
 				return err
 			}
-			r.Count()
-			r.Get(allIDs())
+			observe(b)
 		case 1:
 			r.Evict()
 		}
